@@ -177,7 +177,9 @@ def emit_history(c, typ, hist, values, is_hist, edges_by_reg=None):
                 c.op('HA', r, [v])
                 lens[r] += 1 if c.meta['in_range'](r, v) else 0
             elif arity == 2:
-                c.op('A', r, [v, values[(s + 1) % len(values)] if typ == 'Covariance' else abs(values[(s + 1) % len(values)]) % 7.0])
+                # weighted types: value index 0 carries weight zero, so all-zero-weight states are reachable
+                c.op('A', r, [v, values[(s + 1) % len(values)] if typ == 'Covariance'
+                              else (0.0 if s == 0 else abs(values[(s + 1) % len(values)]) % 7.0)])
                 lens[r] += 1
             else:
                 c.op('A', r, [v])
